@@ -86,6 +86,7 @@ func masks(t *engine.T, container string) []byte {
 func mutate(t *engine.T, k *key, container string, seed []byte, names []string, guard func([]byte) bool, parse func([]byte) (any, error)) {
 	sp := topChildren(seed)
 	mut := make([]byte, len(seed))
+	t.Sample(map[string]any{"kind": "E3 every byte x masks", "container": container, "key": k.name, "masks": len(masks(t, container)), "seed": engine.Hex(seed)})
 	for i := range seed {
 		region := regionOf(sp, names, i)
 		for _, m := range masks(t, container) {
